@@ -108,6 +108,28 @@ def limit_scenario(rnd, sid):
     return s
 
 
+def times_with_units(inp, rnd):
+    """rewrite the H:MM:SS values of [TIMES] as a number followed by a unit word; returns the path of the new file"""
+    import re
+    out, sec = [], ""
+    for line in open(inp).read().splitlines():
+        if line.startswith("["):
+            sec = line.strip()
+        m = re.match(r"^(DURATION|HYDRAULIC TIMESTEP|PATTERN TIMESTEP|REPORT TIMESTEP|RULE TIMESTEP)\s+(\d+):(\d+):(\d+)\s*$", line) if sec == "[TIMES]" else None
+        if m:
+            t = int(m.group(2)) * 3600 + int(m.group(3)) * 60 + int(m.group(4))
+            forms = ["%d SEC" % t, "%d SECONDS" % t]
+            if t % 60 == 0:
+                forms += ["%d MIN" % (t // 60), "%d MINUTES" % (t // 60)]
+            if t % 1800 == 0:
+                forms += ["%g HOURS" % (t / 3600.0), "%g" % (t / 3600.0)]
+            line = "%-20s %s" % (m.group(1), rnd.choice(forms))
+        out.append(line)
+    p = inp[:-4] + "_units.inp"
+    open(p, "w").write("\n".join(out) + "\n")
+    return p
+
+
 def table(s, res, names_n, names_l):
     rows = []
     for i, t in enumerate(res.node["head"].index):
@@ -186,6 +208,17 @@ def one(job):
             return out
         keys = {"numkeys": sorted(W[0]["num"]), "stkeys": sorted(W[0]["st"]), "boundary": [], "clause2": "C03.report_index",
                 "clause3": "C03.report_index"}
+        # a rule on a junction pressure that never fires: its threshold is 1/1.6 of the lowest pressure that junction has in
+        # the whole run, so neither engine may act on it, whatever unit system the threshold is written in
+        js = [n["name"] for n in s["nodes"] if n["type"] == "J"]
+        pipes = [l["name"] for l in s["links"] if l["type"] == "pipe"]
+        jr = rnd.choice(js)
+        pm = min(float(rw.node["pressure"][jr].iloc[i]) for i in range(len(rw.node["pressure"].index)))
+        if pm > 2.0 and pipes and sid % 2 == 0:
+            C = w.network.controls
+            wn.add_control("never", C.Rule(C.ValueCondition(wn.get_node(jr), "pressure", "<", pm / 1.6),
+                                           [C.ControlAction(wn.get_link(rnd.choice(pipes)), "status", w.network.LinkStatus.Closed)], name="never"))
+            out["never_rule"] = True
         for u in units:
             wn.reset_initial_values()
             inp = os.path.join(d, "m_%s.inp" % u)
@@ -205,6 +238,8 @@ def one(job):
                 out["cases"].append(("agree", u, dict(keys, clause="C03.agree_values", a=W, b=E, atol=common.num(2e-2), rtol=common.num(2e-3),
                                                       qsmall=common.num(1e-4))))
             # reader validation: toolkit on the text vs read_inpfile -> EpanetSimulator
+            if sid % 3 == 0:
+                inp = times_with_units(inp, rnd)      # [TIMES] written the other ways EPANET accepts: '30 MIN', '3600 SEC', '1.5 HOURS'
             T = toolkit_run(w, inp, u, names_n, names_l, d)
             wn_r = w.network.read_inpfile(inp)
             rr = w.sim.EpanetSimulator(wn_r).run_sim(file_prefix=os.path.join(d, "r_%s" % u), version=2.2)
@@ -246,6 +281,13 @@ def main(tier, replay):
             continue
         ck.count("programs")
         for kind, u, c in o["cases"]:
+            ta, tb = [r["t"] for r in c["a"]], [r["t"] for r in c["b"]]
+            if ta != tb:
+                # different report times (e.g. a misread time option makes the run thousands of steps long): decided here, the
+                # tables are not sent to TLC
+                ck.violation("C03.report_index", "%s :: unit_family=%s :: report times differ: %d rows %s... vs %d rows %s..." % (
+                    c["clause"], "US" if u in US else "metric", len(ta), ta[:3], len(tb), tb[:3]), {"seed": o["seed"], "unit": u})
+                continue
             cases.append(c)
             meta.append((o, kind, u))
             ck.count("unit_" + u)
